@@ -429,18 +429,15 @@ def _qr_theta_Y0(
     sizes_old = v_old.get_block_sizes()
     sizes_new = v_new.get_block_sizes()
 
-    # iterate over charge blocks in vL(R)_new and vL(R)_old at the same time
-    j_old = 0
-    q_old = v_old.charges[j_old, :]
+    # iterate over charge blocks in vL(R)_new and look up the corresponding block of vL(R)_old.
+    # Note: vL(R)_old can have charge blocks which are not in vL(R)_new (if T_L(R)_old vanishes there)
+    j_old_of_charge = {tuple(q_old): j_old for j_old, q_old in enumerate(v_old.charges)}
     qdata_order = np.argsort(Y0._qdata[:, q_axis])
     qdata_idx = 0
     for j_new, q_new in enumerate(v_new.charges):
-        if all(q_new == q_old):  # have charge block in both v_new and v_old
+        j_old = j_old_of_charge.get(tuple(q_new))
+        if j_old is not None:  # have charge block in both v_new and v_old
             s_new = sizes_old[j_old] + increase_per_block
-            # move to next charge block in next loop iteration
-            j_old += 1
-            if j_old < len(v_old.charges):
-                q_old = v_old.charges[j_old, :]
         else:  # charge block only in v_new
             s_new = increase_per_block
         s_new = min(s_new, sizes_new[j_new])  # don't go beyond block
